@@ -121,6 +121,8 @@ Consume ==
        CASE e.ev = "view"   -> DoView(e)
          [] e.ev = "object" -> DoObject(e)
          [] e.ev = "search" -> DoSearch(e)
+         \* the search item that the plain Gopher root menu shows is not an item of view p's root listing at all
+         [] e.ev = "nosearchitem" -> verdict' = "SameLinks" /\ UNCHANGED refs
          [] OTHER -> verdict' = "unmatched" /\ UNCHANGED refs
 
 TSpec == TInit /\ [][Consume]_tvars
